@@ -148,7 +148,7 @@ def classify_check(fc):
         return "unwinding-bound"
     if any(p in d for p in TOOL_MODEL_PATTERNS):
         return "tool-model"
-    if "unsupported" in d.lower() or "not currently supported" in d.lower():
+    if "not currently supported by Kani" in d or "is not supported by Kani" in d:
         return "unsupported-construct"
     return "violation"
 
